@@ -60,7 +60,8 @@ Arguments Fail {R} _.
 
 Inductive wpc : Type :=
 | WRun      (* evaluating its tasks; may emit log records *)
-| WPut      (* rqueue.put((pid, result_list, tl)) done *)
+| WPutting  (* rqueue.put(...) called, the record is only partly in the pipe (records larger than the pipe) *)
+| WPut      (* rqueue.put((pid, result_list, tl)) done: the complete record is in the pipe *)
 | WDone.    (* lqueue.put_nowait(None) done *)
 
 Record wk : Type := mkwk {
@@ -71,7 +72,9 @@ Record wk : Type := mkwk {
 
 Inductive wact : Type :=
 | APutLog (id : Z)
-| APutResult
+| APutBegin                    (* the transfer of the result record begins *)
+| APutResult                   (* the result record is completely in the queue (atomic put when issued at WRun) *)
+| ARaise                       (* a task raises: worker_wrapper is left by the exception, the process ends with code 1 *)
 | APutEnd
 | AExit0                       (* regular end of the process after worker_wrapper returned *)
 | ADie (code : Z).             (* exception (code 1), os._exit(code), signal (code < 0), ... at any point *)
@@ -111,8 +114,11 @@ Definition upd (f : nat -> wk) (p : nat) (k : wk) : nat -> wk :=
               if not (e.g. the put sits in a `finally`), a worker whose task raised still queues a (partial) result;
    o_status = "the worker does not wait for its status queue at its end" (par_ord_status_nonblocking, fix
               10bab65); if it does, the regular end may never happen (the master reads the status queue only
-              during its own chunk) *)
-Definition wstep_gen (o_tasks o_status : bool) (pid : nat) (a : wact) (w : world) : world :=
+              during its own chunk);
+   o_logc   = "when a task raises the worker does not wait for its log records queue at its end"
+              (par_ord_raise_log_nonblocking, fix cdc2ef8); if it does, it ends only once its log records queue
+              is flushed, and the master reads that queue only after it got the result record *)
+Definition wstep_gen (o_tasks o_status o_logc : bool) (pid : nat) (a : wact) (w : world) : world :=
   if (1 <=? pid)%nat && (pid <=? np)%nat then
     let k := wks w pid in
     match exitc k with
@@ -121,11 +127,27 @@ Definition wstep_gen (o_tasks o_status : bool) (pid : nat) (a : wact) (w : world
       match a, pc k with
       | APutLog id, WRun =>
           mkworld (rq w) (upd (wks w) pid (mkwk WRun None (lq k ++ [Some id])))
-      | APutResult, WRun =>
+      | APutBegin, WRun =>
+          match wres pid with
+          | Ok r => mkworld (rq w) (upd (wks w) pid (mkwk WPutting None (lq k)))
+          | Err _ => if o_tasks then w
+                     else mkworld (rq w) (upd (wks w) pid (mkwk WPutting None (lq k)))
+          end
+      | APutResult, WRun | APutResult, WPutting =>
           match wres pid with
           | Ok r => mkworld (rq w ++ [(pid, r)]) (upd (wks w) pid (mkwk WPut None (lq k)))
           | Err _ => if o_tasks then w
                      else mkworld (rq w ++ [(pid, [])]) (upd (wks w) pid (mkwk WPut None (lq k)))
+          end
+      | ARaise, WRun =>
+          match wres pid with
+          | Ok _ => w                                   (* no task of this worker raises *)
+          | Err _ =>
+              if o_logc then mkworld (rq w) (upd (wks w) pid (mkwk WRun (Some 1%Z) (lq k)))
+              else match lq k with
+                   | [] => mkworld (rq w) (upd (wks w) pid (mkwk WRun (Some 1%Z) (lq k)))
+                   | _ :: _ => w                        (* blocked: flushing the log records queue *)
+                   end
           end
       | APutEnd, WPut =>
           mkworld (rq w) (upd (wks w) pid (mkwk WDone None (lq k ++ [None])))
@@ -139,7 +161,7 @@ Definition wstep_gen (o_tasks o_status : bool) (pid : nat) (a : wact) (w : world
   else w.
 
 Definition wstep : nat -> wact -> world -> world :=
-  wstep_gen par_ord_tasks_before_result par_ord_status_nonblocking.
+  wstep_gen par_ord_tasks_before_result par_ord_status_nonblocking par_ord_raise_log_nonblocking.
 
 (* ------------------------------------------------------------------------- *)
 (* master: the gather loop *)
@@ -166,6 +188,12 @@ Definition pids : list nat := seq 1 np.
 
 Definition all_ended (w : world) : bool :=
   forallb (fun p => par_ended (exitc (wks w p))) pids.
+
+Definition is_putting (p : wpc) : bool := match p with WPutting => true | _ => false end.
+
+(* some result record is only partly in the result queue *)
+Definition putting (w : world) : bool :=
+  existsb (fun p => is_putting (pc (wks w p))) pids.
 
 Definition any_died (w : world) : bool :=
   existsb (fun p => par_died (exitc (wks w p))) pids.
@@ -203,7 +231,11 @@ Definition mstep_gen (o_get o_died o_lget : bool) (w : world) (m : mst) : sys :=
           then Run (mkworld rest (wks w)) (mkmst (it m) PollA (pmap m))
           else Run (mkworld rest (wks w))
                    (mkmst (it m) (if o_lget then DrainA pid else DrainB pid false) (dset pid r (pmap m)))
-      | [] => Run w (mkmst (it m) (PollC ae) (pmap m))
+      | [] =>
+          (* a partly transferred record makes _poll() true: get(block=False) blocks inside recv_bytes until
+             the record is complete *)
+          if putting w then Run w m
+          else Run w (mkmst (it m) (PollC ae) (pmap m))
       end
   | PollC ae =>
       let ae' := if o_get then ae else all_ended w in
@@ -267,18 +299,18 @@ Definition exec (sched : list action) (s : sys) : sys :=
   fold_left (fun s a => step a s) sched s.
 
 (* the same system with the order facts as parameters (for the witnesses that each fact is needed) *)
-Definition step_gen (o_get o_died o_lget o_tasks o_status : bool) (a : action) (s : sys) : sys :=
+Definition step_gen (o_get o_died o_lget o_tasks o_status o_logc : bool) (a : action) (s : sys) : sys :=
   match s with
   | Fin o => Fin o
   | Run w m =>
       match a with
       | Master => mstep_gen o_get o_died o_lget w m
-      | Worker pid wa => Run (wstep_gen o_tasks o_status pid wa w) m
+      | Worker pid wa => Run (wstep_gen o_tasks o_status o_logc pid wa w) m
       end
   end.
 
-Definition exec_gen (o_get o_died o_lget o_tasks o_status : bool) (sched : list action) (s : sys) : sys :=
-  fold_left (fun s a => step_gen o_get o_died o_lget o_tasks o_status a s) sched s.
+Definition exec_gen (o_get o_died o_lget o_tasks o_status o_logc : bool) (sched : list action) (s : sys) : sys :=
+  fold_left (fun s a => step_gen o_get o_died o_lget o_tasks o_status o_logc a s) sched s.
 
 Definition fresh : wk := mkwk WRun None [].
 
@@ -355,6 +387,10 @@ Definition log_backlog (w : world) : nat :=
 Definition poll_bound (w : world) : nat :=
   8 * (length (rq w) + log_backlog w) + 7.
 
+(* no result record is stuck half-way in the result queue *)
+Definition no_partial (w : world) : Prop :=
+  forall p, 1 <= p <= np -> pc (wks w p) <> WPutting.
+
 (* what worker_wrapper does after its tasks: result record, end marker, regular end *)
 Definition worker_program (p : nat) : list action :=
   [Worker p APutResult; Worker p APutEnd; Worker p AExit0].
@@ -364,11 +400,12 @@ Inductive subseq {X : Type} : list X -> list X -> Prop :=
 | sub_skip a p l : subseq p l -> subseq p (a :: l)
 | sub_take a p l : subseq p l -> subseq (a :: p) (a :: l).
 
-(* a schedule is fair when every child process is run to the end of its program (if none of its tasks raises)
-   or dies / is killed (by an exception, a signal, an external watchdog) at some point *)
+(* a schedule is fair when every child process is run to the end of its program (if none of its tasks raises),
+   reaches the raising task (if one raises), or dies / is killed (by an exception, a signal, an external watchdog) at some point *)
 Definition fair (sched : list action) : Prop :=
   forall p, 1 <= p <= np ->
     ((exists r, wres p = Ok r) /\ subseq (worker_program p) sched) \/
+    ((exists e, wres p = Err e) /\ In (Worker p ARaise) sched) \/
     (exists c, In (Worker p (ADie c)) sched).
 
 End Gather.
@@ -384,7 +421,7 @@ Definition n_master (s : list action) : nat := length (filter is_master s).
 
 (* a schedule in which no worker process dies *)
 Definition is_die (a : action) : bool :=
-  match a with Worker _ (ADie _) => true | _ => false end.
+  match a with Worker _ (ADie _) | Worker _ ARaise => true | _ => false end.
 
 Definition fault_free (s : list action) : Prop := forallb (fun a => negb (is_die a)) s = true.
 
@@ -507,3 +544,12 @@ Definition sched_finally : list action :=
 (* the worker ran its whole program but waits for its status queue to be read *)
 Definition sched_status_block : list action :=
   worker_program 1 ++ repeat Master 6.
+
+(* a task raises after the worker emitted log records (code before fix cdc2ef8: the worker waits for its log
+   records queue at its end, the master reads that queue only after the result record) *)
+Definition sched_raise_logs : list action :=
+  [Worker 1 (APutLog 7%Z); Worker 1 ARaise].
+
+(* OPEN FINDING: the worker is killed while its (large) result record is being transferred *)
+Definition sched_midput : list action :=
+  [Worker 1 APutBegin; Worker 1 (ADie (-9)%Z)].
